@@ -3,6 +3,7 @@ package harness
 import (
 	"bytes"
 	"fmt"
+	"verif/simrt"
 
 	"verif/pkg/prng"
 	"verif/pkg/refcodec"
@@ -484,24 +485,31 @@ func runC09(c *Ctx) *Replay {
 	c.Sample(map[string]interface{}{"program": p.ID, "sender_mask": sb.Mask, "receiver_mask": rb.Mask, "type": d.Name, "shape": shape})
 	t := schema.Type{Named: d.Name}
 	data, spans := refcodec.EncodeSpans(sb.Schema, t, val.Normalise(sb.Schema, t, v))
-	for _, e := range allEncoders {
-		sc := Scenario{Kind: "optbytes", Prog: p.ID, Mask: sb.Mask, PeerMask: rb.Mask, Type: d.Name, Value: &v, Encoder: e, Order: drawOrder(c.R)}
-		if e == "marshalto" {
-			sc.Dirty = drawDirty(c.R)
-		}
-		viol := execOptBytes(c.N, &sc)
-		c.Count("evaluations", 1)
-		c.Count("bytes:"+e, 1)
-		c.State("c09b", shape, fmt.Sprint(sb.Mask^rb.Mask), e)
-		c.Log("b", e, viol == nil)
-		if viol != nil {
-			if rp := c.shrinkAndReport(&sc, viol); rp != nil {
-				return rp
+	// "any valid input" is not only what this generator writes: a conformant third-party
+	// peer (the reference encoder) sends map entries AND message fields in any order
+	for _, e := range append(append([]string{}, allEncoders...), "reference") {
+		if e != "reference" {
+			sc := Scenario{Kind: "optbytes", Prog: p.ID, Mask: sb.Mask, PeerMask: rb.Mask, Type: d.Name, Value: &v, Encoder: e, Order: drawOrder(c.R)}
+			if e == "marshalto" {
+				sc.Dirty = drawDirty(c.R)
+			}
+			viol := execOptBytes(c.N, &sc)
+			c.Count("evaluations", 1)
+			c.Count("bytes:"+e, 1)
+			c.State("c09b", shape, fmt.Sprint(sb.Mask^rb.Mask), e)
+			c.Log("b", e, viol == nil)
+			if viol != nil {
+				if rp := c.shrinkAndReport(&sc, viol); rp != nil {
+					return rp
+				}
 			}
 		}
 		for _, dec := range allDecoders {
 			sc := Scenario{Kind: "roundtrip", Prog: p.ID, Mask: sb.Mask, PeerMask: rb.Mask, Type: d.Name, Value: &v, Encoder: e, Decoder: dec, Order: drawOrder(c.R)}
-			if obs := c.N.OldOf[p.ID]; len(obs) > 0 && c.R.Chance(1, 3) {
+			if e == "reference" {
+				sc.Order = MapOrder{Strategy: []int{simrt.OrderReverse, simrt.OrderRotate, simrt.OrderShuffle}[c.R.Intn(3)], Seed: c.R.Uint64(), Fields: true}
+			}
+			if obs := c.N.OldOf[p.ID]; e != "reference" && len(obs) > 0 && c.R.Chance(1, 3) {
 				// "every valid encoding" includes those of a peer on the newer version of the
 				// schema, which still sends what this reader has deprecated and adds fields it
 				// does not know: every decoder of every option set reads them alike
